@@ -48,6 +48,8 @@ REAL_VS_STUB = {
 FAULT_PROBES = {"crash_inside_block_header": "crash_in_header", "crash_inside_key": "crash_in_key", "crash_inside_value": "crash_in_value",
                 "crash_on_block_boundary": "crash_on_boundary", "second_crash_in_recovery_append": "second_crash", "live_writer_killed": "live_writer_killed",
                 "live_torn_write": "live_torn_write"}
+# a small share of the runs is repeated by fresh interpreters started with `python -O` (assert statements stripped)
+INTERP_VARIANTS = [{"flags": ["-O"], "runs": {"quick": 24, "thorough": 400}, "what": "python -O (assert statements stripped from the code under test)"}]
 PROBES = ["crash_in_header", "crash_in_key", "crash_in_value", "crash_on_boundary", "crash_before_first_byte",
           "torn_header_announces_beyond_eof", "recovery_append_done", "second_crash", "stale_handle_recovery",
           "direct_raw_write_of_value", "molecule_library_recovery", "same_handle_read_then_append", "live_writer_killed", "live_survivor_session_after_kill", "live_torn_write"]
